@@ -19,5 +19,7 @@ pub mod c12;
 pub mod c09;
 pub mod c19;
 pub mod c11;
+pub mod c15;
+pub mod c17;
 
 include!("gen.rs");
